@@ -237,7 +237,7 @@ func c37Classify(rs []c37Reason, ts int64) (key, shape string) {
 func (m *c37Model) idCollision(b *c37MBlock) (string, bool) {
 	for a := b; a != nil; a = a.parent {
 		for _, x := range m.blocks {
-			if x != a && x.blk.GetID() == a.blk.GetID() {
+			if x != a && x.blk.GetID() == a.blk.GetID() && (x.parent != a.parent || x.ts != a.ts) {
 				return fmt.Sprintf("blocks b%d (parent b%d, timestamp %d) and b%d (parent b%d, timestamp %d) carry the same certificates and therefore the same block id %s", a.idx, pidx(a), a.ts, x.idx, pidx(x), x.ts, a.blk.GetID()), true
 			}
 		}
@@ -294,9 +294,13 @@ func newC37Run(t *testing.T) (*c37Run, error) {
 func (r *c37Run) addBlock(parent *c37MBlock, blk Block, certs []c37Cert) *c37MBlock {
 	b := &c37MBlock{idx: len(r.m.blocks), blk: blk, parent: parent, ts: blk.Timestamp, certs: certs}
 	for _, x := range r.m.blocks {
-		if x.blk.GetID() == blk.GetID() && (x.parent != parent || x.ts != b.ts) {
-			r.st.idCollisions++
+		if x.blk.GetID() != blk.GetID() {
+			continue
 		}
+		if x.parent == parent && x.ts == b.ts && fmt.Sprint(x.certs) == fmt.Sprint(certs) {
+			return x // the very same block verified again
+		}
+		r.st.idCollisions++
 	}
 	r.m.blocks = append(r.m.blocks, b)
 	r.node.index.put(blk)
